@@ -52,6 +52,9 @@ def distribute(rng, triples, kind):
         g.addN(ds.quads((None, None, None, None)))
         return g
     names = [URIRef("urn:g%d" % i) for i in range(rng.randint(1, 3))]
+    if rng.random() < 0.3:
+        # a graph that carries one of the names pySHACL uses for its own expansion graphs (e.g. the dataset of an earlier in-place run)
+        names.append(URIRef(rng.choice(["urn:pyshacl:inference", "urn:pyshacl:inoculation"])))
     style = rng.choice(["mixed", "named_only", "default_only", "mixed"])
     for t in triples:
         if style == "default_only" or (style == "mixed" and rng.random() < 0.35):
